@@ -1651,8 +1651,11 @@ static void add_comment_text(const UncText &text,
 
    for ( ; idx < len; idx++)  // TODO: avoid modifying idx in loop
    {
-      // Split the comment
-      if (text[idx] == '\n')
+      // Split the comment, a lone CR ends a line as well
+      if (  text[idx] == '\n'
+         || (  text[idx] == '\r'
+            && (  idx + 1 >= len
+               || text[idx + 1] != '\n')))
       {
          in_word = false;
          add_char('\n');
